@@ -5,6 +5,8 @@ CONSTANTS
   GenActs <- R1_Acts
   MaxSteps = 8
   DrainMax = 0
+  Prelude = "none"
+  GenStreams = {1}
   UseCls = FALSE
   DrawStreams <- R_DrawStreams
   DrawSpaces <- R_DrawSpaces
@@ -25,6 +27,7 @@ CONSTANTS
   Burst <- NoLimit
   BroadcastDedup = TRUE
   FIX_PruneEmpty = TRUE
+  FIX_Recheck = TRUE
   AllowLate = TRUE
   TrackEvicted = FALSE
   AtomicCheck = FALSE
